@@ -68,6 +68,33 @@ Theorem C39_frame : forall bn a v bs c,
   (snd (try_deposit bn a v bs c) <> Deposited -> a' = a).
 Proof. exact frame. Qed.
 
+(* SEVERAL ACCOUNTS. The world maps addresses to accounts (an address without an entry is a
+   preallocated account that does not exist yet = the blueprint defaults). For every transaction of the
+   harness kinds (guarded deposit from a source account, owner deposit, owner withdrawal into another
+   account, configuration change) every account that is not a party of it is exactly as before: *)
+Theorem C39_world_frame : forall bn w o a, ~ In a (parties o) -> wget (fst (wstep bn w o)) a = wget w a.
+Proof. exact world_frame. Qed.
+
+(* the guarded-deposit transaction itself: when everything is deposited the target is as in
+   C39_frame and the source loses exactly the buckets (configuration untouched); in every other
+   outcome the target is unchanged and the source is restored (same configuration, same vaults);
+   per resource, source + target hold the same total before and after *)
+Theorem C39_world_try : forall bn w src tgt v bs c, src <> tgt ->
+  let w' := fst (wstep bn w (WTry src tgt v bs c)) in
+  let out := snd (wstep bn w (WTry src tgt v bs c)) in
+  (out = Deposited ->
+     wget w' tgt = fst (try_deposit bn (wget w tgt) v bs c) /\
+     a_default (wget w' src) = a_default (wget w src) /\ a_prefs (wget w' src) = a_prefs (wget w src) /\
+     a_auth (wget w' src) = a_auth (wget w src) /\
+     forall r, lookup r (a_vaults (wget w' src)) =
+               if memN r (map fst bs) then Some (balance (wget w src) r - sum_for r bs) else lookup r (a_vaults (wget w src))) /\
+  (out <> Deposited -> wget w' tgt = wget w tgt /\ same_acct (wget w' src) (wget w src)).
+Proof. exact world_try. Qed.
+Theorem C39_world_conservation : forall bn w src tgt v bs c r, src <> tgt ->
+  let w' := fst (wstep bn w (WTry src tgt v bs c)) in
+  balance (wget w' src) r + balance (wget w' tgt) r = balance (wget w src) r + balance (wget w tgt) r.
+Proof. exact world_try_conservation. Qed.
+
 (* default AllowExisting (no explicit preference): exactly XRD and resources with an existing vault *)
 Theorem C39_allow_existing : forall a r,
   a_default a = AllowExisting -> lookup r (a_prefs a) = None ->
@@ -105,6 +132,9 @@ Print Assumptions C39_decision.
 Print Assumptions C39_deposited_iff.
 Print Assumptions C39_decision_pre_bottlenose.
 Print Assumptions C39_frame.
+Print Assumptions C39_world_frame.
+Print Assumptions C39_world_try.
+Print Assumptions C39_world_conservation.
 Print Assumptions C39_allow_existing.
 Print Assumptions C39_preference_decides.
 Print Assumptions C39_vault_history.
